@@ -351,6 +351,9 @@ func Walk(g *Graph, newImpl func() Impl, maxKeep int) *Report {
 			if ok && !ed.OK {
 				add(Mismatch{Kind: "result", Event: ed.E, SpecOK: false, ImplOK: true, Failed: ed.Failed, ImplErr: errStr, Path: pathTo(n), Diverged: true})
 			}
+			if !ok && ed.OK && mustComplete(ed.E) {
+				add(Mismatch{Kind: "result", Event: ed.E, SpecOK: true, ImplOK: false, ImplErr: errStr, Path: pathTo(n), Diverged: true})
+			}
 			if ok && ed.OK && isChild[ed] && (!top || depth[ed.To] < cut) {
 				visitDiverged(ed.To, f, top, budget)
 			}
@@ -364,8 +367,12 @@ func Walk(g *Graph, newImpl func() Impl, maxKeep int) *Report {
 			}
 			*budget--
 			f := im.Fork()
-			if ok, _, errStr := f.Exec(ed.E); ok && !ed.OK {
+			ok, _, errStr := f.Exec(ed.E)
+			if ok && !ed.OK {
 				add(Mismatch{Kind: "result", Event: ed.E, SpecOK: false, ImplOK: true, Failed: ed.Failed, ImplErr: errStr, Path: path, Diverged: true, AfterImport: true})
+			}
+			if !ok && ed.OK && mustComplete(ed.E) {
+				add(Mismatch{Kind: "result", Event: ed.E, SpecOK: true, ImplOK: false, ImplErr: errStr, Path: path, Diverged: true, AfterImport: true})
 			}
 		}
 	}
@@ -531,6 +538,13 @@ func Walk(g *Graph, newImpl func() Impl, maxKeep int) *Report {
 	wg.Wait()
 	sort.SliceStable(rep.Mismatches, func(i, j int) bool { return len(rep.Mismatches[i].Path) < len(rep.Mismatches[j].Path) })
 	return rep
+}
+
+// mustComplete: transfers whose completion the properties promise (C04: a recorded withdrawal can be claimed, C07: a deposit
+// at the expected sequence is processed).  Below a diverged edge their rejection is recorded too.
+func mustComplete(e M) bool {
+	t := eventType(e)
+	return strings.HasSuffix(t, "FinalizeTokenWithdrawal") || strings.HasSuffix(t, "FinalizeTokenDeposit")
 }
 
 func eventType(e M) string {
